@@ -110,7 +110,10 @@ func HarnessC08_BasicHeartbeat() {
 		ts := vfI64("ts_" + id)
 		vfAssume(vfAnd(ts >= later-(1<<25), ts <= later))
 		ages[id] = later - ts
-		in.Ingesters[id] = InstanceDesc{Id: id, Addr: "addr-" + id, Zone: "z", State: ACTIVE, Timestamp: ts, RegisteredTimestamp: 7, Tokens: []uint32{uint32(1000 * i)}}
+		// any state: only the age of the heartbeat decides about forgetting
+		st := InstanceState(vfI32("st_" + id))
+		vfAssume(vfAnd(st >= ACTIVE, st <= JOINING))
+		in.Ingesters[id] = InstanceDesc{Id: id, Addr: "addr-" + id, Zone: "z", State: st, Timestamp: ts, RegisteredTimestamp: 7, Tokens: []uint32{uint32(1000 * i)}}
 	}
 	lost := vfChoice("entry_lost", 2) == 1
 	if !lost {
